@@ -313,8 +313,8 @@ def select_inputs(ctx):
     fixy = [u for u in units if u["check"] in with_fix_checks or u["golden"]]
     others = [u for u in units if u not in fixy]
     if ctx.quick:
-        base = fixy + vlib.sample(ctx, others, 24)
-        var_units = {v: vlib.sample(ctx, fixy, 14) for v in VARIANTS}
+        base = fixy + vlib.sample(ctx, others, 12)
+        var_units = {v: vlib.sample(ctx, fixy, 8) for v in VARIANTS}
     else:
         base = units
         var_units = {v: units for v in VARIANTS}
@@ -535,7 +535,7 @@ def run(ctx):
     # 1-3. recorded diagnostics and fixes
     units, base, var_units, with_fix_checks = select_inputs(ctx)
     rp = [p for p in repo_packages() if "/testdata" not in p]
-    repo_sel = vlib.sample(ctx, rp, 8) if ctx.quick else rp
+    repo_sel = vlib.sample(ctx, rp, 5) if ctx.quick else rp
     jobs = make_jobs(ctx, helper, base, var_units, repo_sel)
     stats = new_stats()
     art, dver, fver, _ = analyse(ctx, helper, jobs, "main", stats)
